@@ -240,7 +240,8 @@ theorem swap_distance_fuel (fuel : Nat) (p1 p2 : List Int) :
               simp only [idx?_eq_wrapIdx]
               by_cases hji : j' = (i : Int)
               · simp [hji]
-              · simp only [hji, ne_eq, not_false_eq_true, not_true_eq_false, if_false, if_true]
+              · have hji' : ¬ (i : Int) = j' := fun h => hji h.symm
+                simp only [hji, hji', ne_eq, not_false_eq_true, not_true_eq_false, if_false, if_true]
                 cases Order1d.wrapIdx u'.length j' with
                 | none => simp
                 | some ju =>
@@ -251,7 +252,10 @@ theorem swap_distance_fuel (fuel : Nat) (p1 p2 : List Int) :
               rintro ⟨u', j'⟩ c hc
               have hc' : c = (u', j') := hc
               subst hc'
-              by_cases hji : j' = (i : Int) <;> simp [hji, StepRel]
+              by_cases hji : j' = (i : Int)
+              · simp [hji, StepRel]
+              · have hji' : ¬ (i : Int) = j' := fun h => hji h.symm
+                simp [hji, hji', StepRel]
     · rintro b c hc
       have hc' : c = b := hc
       subst hc'
